@@ -156,6 +156,16 @@ def run(ctx):
         oks = [(blk, st) for blk, i, st in rs.assigns() if st["lhs"]["l"] == 0 and st["rv"]["k"] == "agg" and st["rv"].get("variant") == "Ok"]
         okv = bool(oks) and all(any(o.kind == "call" and o.call.name in ("pgcat::server::Server::recv", "tokio::time::timeout::timeout") for o in origins(rs, st["rv"]["ops"][0], taint=True)) for blk, st in oks)
         r3.check(okv, "receive-returns-recv", "receive_server_message returns what Server::recv produced", "receive_server_message returns something else than Server::recv's result")
+    # with the statement cache on, the Parse that reaches the server is the one the pool cache holds under the client's Parse's key: it is the client's Parse (but
+    # for the name) only if the key covers every field the encoder writes (round 10: parameter types left out of the key - the server is given another client's types)
+    from common import parse_cache_key_gap
+    gap3, encf3, hashf3 = parse_cache_key_gap(F)
+    if gap3 is None:
+        r3.missing("Parse encoder / Parse::get_hash")
+    else:
+        r3.check(not gap3, "cached-parse-is-the-clients-parse", "the pool cache substitutes a Parse only for one that agrees with it in every field the encoder writes (%s)" % sorted(encf3),
+                 "Parse.%s is written into the message sent to the server but is not part of the cache key: a client's Parse is replaced by a cached one that differs in it - the server does not receive the bytes "
+                 "the client sent (and the Bind that follows is bound to the other statement)" % sorted(gap3))
     # ---------------- R4 read until ReadyForQuery
     r4 = ctx.rule("C03-R4", "a request's reply is forwarded until the server says it is complete: the receive loops are left only on is_data_available()==false, and only ReadyForQuery clears that flag", floor=5)
     for key, ok, okmsg, failmsg in whole_reply_findings(F):
